@@ -1286,6 +1286,29 @@ func flushSites(fn *ssa.Function, de *ssa.Alloc, resT types.Type) map[ssa.Instru
 			if sf := staticCallee(c); sf != nil && flushing[sf] {
 				out[in] = true
 			}
+			// a function of the package that is handed the pending element and appends that parameter to
+			// a list of the result type (benign E-r1: check-and-append extracted into a helper)
+			if sf := staticCallee(c); sf != nil && sf.Blocks != nil && sf.Parent() == nil && fnPkg(sf) == fnPkg(fn) {
+				for i, a := range c.Call.Args {
+					ld, ok := strip(a).(*ssa.UnOp)
+					if !ok || ld.Op != token.MUL || ld.X != ssa.Value(de) || i >= len(sf.Params) {
+						continue
+					}
+					allInstrs(sf, func(in2 ssa.Instruction) {
+						c2, ok := in2.(*ssa.Call)
+						if !ok {
+							return
+						}
+						b, ok := c2.Call.Value.(*ssa.Builtin)
+						if !ok || b.Name() != "append" || len(c2.Call.Args) != 2 || !types.Identical(c2.Type(), resT) {
+							return
+						}
+						if el := singleVariadicOfSlice(c2.Call.Args[1]); el != nil && strip(el) == ssa.Value(sf.Params[i]) {
+							out[in] = true
+						}
+					})
+				}
+			}
 		}
 	})
 	return out
